@@ -47,46 +47,74 @@ def run(ctx):
               "modify_order dispatches to 1 in-place call (%s) and %d replacing call site(s)" % (inplace[0].name if inplace else "?", len(replace)),
               "modify_order has %d calls that keep the priority map and %d that touch it (expected 1 and >= 1)" % (len(inplace), len(replace)))
 
-    # assumptions are expressed by cutting the branch edges they exclude
-    def var_edges(p, name):
-        return set(cfg.edges_with(lambda a: a[0] == "variant" and a[1] == p and a[2] == (name,)))
+    # ---- finite case analysis over (status, new_price shape, new_vol shape, v < current volume, price on grid): what runs
+    #      in each case is read off the CFG with the branch conditions evaluated under the case (analysis/cases.py), so a
+    #      `match (new_price, new_vol)`, `if let`, or `unwrap_or` + `is_none()` spelling are judged alike
+    from analysis.cases import CaseEval
 
-    def is_lt(a):   # v < current volume
-        return a[0] == "cmp" and a[1] == "lt" and same(a[2], payload(nv_)) and a[3][0] == "field" and a[3][2] == "vol"
+    def is_vol(e):
+        return e[0] == "field" and e[2] == "vol" and (e[1][0] == "field" and e[1][2] == "order" or (len(e) > 3 and e[3].endswith("Order")))
 
-    def is_ge(a):   # current volume <= v
-        return a[0] == "cmp" and a[1] == "le" and a[2][0] == "field" and a[2][2] == "vol" and same(a[3], payload(nv_))
-    P_SOME, P_NONE = var_edges(np_, "Some"), var_edges(np_, "None")
-    V_SOME, V_NONE = var_edges(nv_, "Some"), var_edges(nv_, "None")
-    LT, GE = set(cfg.edges_with(is_lt)), set(cfg.edges_with(is_ge))
-    ACTIVE = set(cfg.edges_with(lambda a: a[0] == "cmp" and a[1] == "eq" and a[2][0] == "field" and a[2][2] == "status" and a[3][0] == "agg" and a[3][2].endswith("Status::Active")))
-    ctx.check(bool(P_SOME and P_NONE and V_SOME and V_NONE and LT and GE and ACTIVE), "dispatch", "tests", ctx.loc(f),
-              "modify_order branches on status == Active, on both options and on v < current volume (strict)",
-              "modify_order lacks one of the tests: price option %s/%s, volume option %s/%s, strict v < vol %s/%s, status %s" % (
-                  bool(P_SOME), bool(P_NONE), bool(V_SOME), bool(V_NONE), bool(LT), bool(GE), bool(ACTIVE)))
+    def decide(active, strict, grid):
+        def d(a):
+            if a[0] != "cmp":
+                return None
+            op, x, y = a[1], a[2], a[3]
+            # status == / != Active
+            if op in ("eq", "ne") and x[0] == "field" and x[2] == "status" and y[0] == "agg" and y[2].endswith("Status::Active"):
+                return active if op == "eq" else (not active)
+            # v < current volume (strict) and its exact complement current volume <= v
+            if same(x, payload(nv_)) and is_vol(y):
+                if op == "lt":
+                    return strict
+                if op == "ge":
+                    return not strict
+            if is_vol(x) and same(y, payload(nv_)):
+                if op == "gt":
+                    return strict
+                if op == "le":
+                    return not strict
+            # new price on the tick grid
+            if op in ("eq", "ne") and x[0] == "bin" and x[1] == "Rem" and same(x[2], payload(np_)) and y[0] == "const" and y[3] == 0 and grid is not None:
+                return grid if op == "eq" else (not grid)
+            return None
+        return d
 
-    def reachable(c, assume_cut):
-        return c.b in cfg.reach_under(assume_cut)[0]
+    def case(active, p, v, strict=False, grid=True):
+        return CaseEval(q, {np_: p, nv_: v}, [decide(active, strict, grid)])
 
-    def must_run(cs, assume_cut):
-        """under the assumption every path to a return executes one of the calls cs"""
-        reach, cuts = cfg.reach_under(assume_cut)
-        r2 = cfg.reach_from(0, cut_edges=cuts, cut_blocks=[c.b for c in cs])
-        return not (set(f.body.return_blocks()) & r2) and any(c.b in reach for c in cs)
-    NOT_ACTIVE = set(cfg.edges_with(lambda a: a[0] == "cmp" and a[1] == "ne" and a[2][0] == "field" and a[2][2] == "status" and a[3][0] == "agg" and a[3][2].endswith("Status::Active")))
-    entity = None
-    lt_atoms = [a for (b_, t_) in LT for a in cfg.edge_atoms(b_, t_) if is_lt(a)]
-    if lt_atoms:
-        entity = lt_atoms[0][3][1]
+    def kept(e, fname):
+        return e[0] == "field" and e[2] == fname and e[1][0] == "field" and e[1][2] == "order"
+
+    def run_set(ce):
+        return [c for c in calls if ce.reachable(c.b)]
+
+    def label(p, v, strict=None):
+        return "(new_price %s, new_vol %s%s)" % (p, v, "" if strict is None else (", v < current" if strict else ", v >= current"))
+    # (0) not Active: nothing runs, whatever the request
+    for p in ("None", "Some"):
+        for v in ("None", "Some"):
+            for strict in (True, False):
+                ce = case(False, p, v, strict)
+                rs = run_set(ce)
+                ctx.check(not rs, "dispatch", "inactive|%s%s%s" % (p, v, strict), ctx.loc(f), "order not Active %s: no effectful call is reachable" % label(p, v, strict),
+                          "order not Active %s: %s can still run" % (label(p, v, strict), [c.name for c in rs]))
+    # (1) nothing to change
+    ce = case(True, "None", "None")
+    rs = run_set(ce)
+    ctx.check(not rs, "noop", "none-none", ctx.loc(f), "a modification with nothing to change reaches no effectful call",
+              "effectful call reachable with (None, None): %s" % ", ".join(c.text()[:50] for c in rs))
+    # (2) pure strict reduction: exactly the in-place call, with amount current - v
+    ce = case(True, "None", "Some", strict=True)
+    rs = run_set(ce)
+    ok = bool(inplace) and [c.b for c in rs] == [inplace[0].b] and ce.must_run([inplace[0].b])
+    ctx.check(ok, "in-place", "guard", inplace[0].loc() if inplace else ctx.loc(f), "price omitted and v < current volume (strict): exactly the in-place reduction runs, always",
+              "price omitted and v < current volume: runs %s%s" % ([c.name for c in rs], "" if not inplace or ce.must_run([inplace[0].b]) else " (the in-place call can be skipped)"))
     for c in inplace:
-        ok = not reachable(c, P_NONE) and not reachable(c, V_SOME) and not reachable(c, LT) and not reachable(c, ACTIVE) and reachable(c, P_SOME | V_NONE | GE | NOT_ACTIVE)
-        ctx.check(ok, "in-place", "guard", c.loc(), "in-place reduction iff status Active, price None, volume Some(v), v < current volume (strict)",
-                  "in-place reduction is reachable outside {new_price None, new_vol Some(v), v < vol strictly, status Active} (conditions seen: %s)" % c.gtext())
-        ctx.check(must_run([c], P_SOME | V_NONE | GE | NOT_ACTIVE), "in-place", "always", c.loc(), "and under those conditions it always runs")
-        # argument = vol - v
-        b = c02.bin_of(c.args[2]) if len(c.args) > 2 else None
-        ok = b is not None and b[0] == "Sub" and b[1][0] == "field" and b[1][2] == "vol" and same(b[2], payload(nv_))
-        ctx.check(ok, "in-place", "delta", c.loc(), "reduction amount = current volume - v", "reduction amount is %s" % (render(c.args[2]) if len(c.args) > 2 else "?"))
+        amt = ce.value(c.args[2]) if len(c.args) > 2 else None
+        bb = c02.bin_of(amt) if amt is not None else None
+        ok = bb is not None and bb[0] == "Sub" and is_vol(bb[1]) and same(bb[2], payload(nv_))
+        ctx.check(ok, "in-place", "delta", c.loc(), "reduction amount = current volume - v", "reduction amount is %s" % (render(amt) if amt is not None else "?"))
         s = E.summary(c.target)
         okp = not any(m.s_prio in path for (_pi, path) in s["writes"]) and not s["unknown"]
         ctx.check(okp, "in-place", "keeps-queue", ctx.loc(c.target), "%s never writes a priority map (effect summary: %s)" % (
@@ -95,40 +123,39 @@ def run(ctx):
         ow = [w for w in tq.writes() if w.owner.split("::")[-1] in ("Order", "OrderEntry")]
         ctx.check(all(w.field == "vol" for w in ow) and ow, "in-place", "only-vol", ctx.loc(c.target), "the in-place path writes no order field but vol",
                   "the in-place path also writes %s" % ", ".join(w.text() for w in ow if w.field != "vol"))
-    # replacing call sites
-    def kept(e, fname):
-        return e[0] == "field" and e[2] == fname and e[1][0] == "field" and e[1][2] == "order"
-
-    def arg_ok(c, a, p, fname, some_cut, none_cut):
-        """a = requested value when given, else the order's current one"""
-        n = normalize(m.w, a)
-        alts = list(n[1]) if n[0] == "phi" else [n]
-        if len(alts) == 2 and any(same(x, payload(p)) for x in alts) and any(kept(x, fname) for x in alts):
-            return "requested if given, else kept (unwrap_or)"
-        if len(alts) == 1 and same(alts[0], payload(p)) and not reachable(c, some_cut):
-            return "requested (only reached when given)"
-        if len(alts) == 1 and kept(alts[0], fname) and not reachable(c, none_cut):
-            return "kept (only reached when omitted)"
-        return None
-    for c in replace:
-        a_p = c.arg_named("new_price") if "new_price" in c.formals else (c.args[2] if len(c.args) > 2 else None)
-        a_v = c.arg_named("new_vol") if "new_vol" in c.formals else (c.args[3] if len(c.args) > 3 else None)
-        rp = arg_ok(c, a_p, np_, "price", P_SOME, P_NONE) if a_p is not None else None
-        rv = arg_ok(c, a_v, nv_, "vol", V_SOME, V_NONE) if a_v is not None else None
-        ctx.check(rp is not None and rv is not None, "replace", "args|bb", c.loc(), "replacement gets price: %s; volume: %s" % (rp, rv),
-                  "replacement called with price=%s volume=%s (expected: the requested value when given, otherwise the order's current one)" % (
-                      render(a_p) if a_p else "?", render(a_v) if a_v else "?"))
-        ctx.check(not reachable(c, ACTIVE), "replace", "active-only", c.loc(), "replacement only for an Active order")
-    none_none = [c for c in calls if reachable(c, P_SOME | V_SOME)]
-    ctx.check(not none_none, "noop", "none-none", ctx.loc(f), "a modification with nothing to change reaches no effectful call",
-              "effectful call reachable with (None, None): %s" % ", ".join(c.text()[:50] for c in none_none))
-    red = [c for c in replace if reachable(c, P_SOME | V_NONE | GE)]
-    ctx.check(not red, "replace", "not-for-reductions", ctx.loc(f), "a pure volume reduction never goes through the replacement path",
-              "a pure volume reduction can reach the replacement path")
-    OFFGRID = set(cfg.edges_with(lambda a: a[0] == "cmp" and a[1] == "ne" and a[2][0] == "bin" and a[2][1] == "Rem" and a[3][0] == "const" and a[3][3] == 0))
-    ctx.check(must_run(replace, P_NONE | NOT_ACTIVE | OFFGRID) and must_run(replace, P_SOME | V_NONE | LT | NOT_ACTIVE), "dispatch", "cases", ctx.loc(f),
-              "every Active order with a price given, or a volume not below the current one, is replaced",
-              "some modification with a new price / a non-reducing volume does not reach the replacement")
+    # (3..5) every other request on an Active order (on-grid price): exactly a replacement runs, always, with the requested
+    #        value where given and the order's current one where omitted
+    for (p, v, strict) in (("None", "Some", False), ("Some", "None", False), ("Some", "None", True), ("Some", "Some", False), ("Some", "Some", True)):
+        ce = case(True, p, v, strict=strict, grid=True)
+        rs = run_set(ce)
+        only_replace = bool(rs) and all(c in replace for c in rs)
+        ok = only_replace and ce.must_run([c.b for c in rs])
+        ctx.check(ok, "replace", "case|%s|%s|%s" % (p, v, strict), rs[0].loc() if rs else ctx.loc(f),
+                  "%s on an Active order: the order is replaced (and nothing else runs)" % label(p, v, strict if v == "Some" else None),
+                  "%s on an Active order: runs %s%s" % (label(p, v, strict if v == "Some" else None), [c.name for c in rs],
+                                                       "" if not only_replace else " but the replacement can be skipped"))
+        for c in rs:
+            if c not in replace:
+                continue
+            a_p = c.arg_named("new_price") if "new_price" in c.formals else (c.args[2] if len(c.args) > 2 else None)
+            a_v = c.arg_named("new_vol") if "new_vol" in c.formals else (c.args[3] if len(c.args) > 3 else None)
+            vp = ce.value(normalize(m.w, a_p)) if a_p is not None else None
+            vv = ce.value(normalize(m.w, a_v)) if a_v is not None else None
+            # a join of per-arm values: keep the alternatives that are defined under the case
+            def pick(x, param, shape):
+                alts = list(x[1]) if x is not None and x[0] == "phi" else [x]
+                if shape == "Some":
+                    alts = [y for y in alts if same(y, payload(param))] or alts
+                else:
+                    alts = [y for y in alts if not any(same(z, payload(param)) for z in walk(y))] or alts
+                return alts
+            ap, av = pick(vp, np_, p), pick(vv, nv_, v)
+            okp = len(ap) == 1 and (same(ap[0], payload(np_)) if p == "Some" else kept(ap[0], "price"))
+            okv = len(av) == 1 and (same(av[0], payload(nv_)) if v == "Some" else kept(av[0], "vol"))
+            ctx.check(okp and okv, "replace", "args|%s|%s|%s" % (p, v, strict), c.loc(),
+                      "%s: replacement gets price = %s, volume = %s" % (label(p, v), "requested" if p == "Some" else "current", "requested" if v == "Some" else "current"),
+                      "%s: replacement called with price=%s volume=%s (expected the requested value when given, otherwise the order's current one)" % (
+                          label(p, v), render(vp) if vp else "?", render(vv) if vv else "?"))
     # the replacing callee
     targets = {c.target.path: c.target for c in replace}
     ctx.check(len(targets) == 1, "replace", "single-callee", ctx.loc(f), "all replacing dispatches go through one function")
